@@ -189,9 +189,41 @@ func c15Func(c *Ctx, fd *ast.FuncDecl) {
 			skel.Undecided("the async method decides on something other than the emptiness of the container (%d paths)", len(paths))
 			return
 		}
-		if isShort {
+		// a shortcut does not reach the spawning loop; paths that do and differ only in how the emptiness tests came out are one main path
+		hasLoop := false
+		for _, st := range p.Steps {
+			if st.Kind == "loop" {
+				hasLoop = true
+			}
+		}
+		if isShort && !hasLoop {
 			shortcuts = append(shortcuts, p)
-		} else {
+			continue
+		}
+		dup := false
+		for _, m := range mains {
+			var a, b []Step
+			for _, st := range m.Steps {
+				if st.Kind != "cond" {
+					a = append(a, st)
+				}
+			}
+			for _, st := range p.Steps {
+				if st.Kind != "cond" {
+					b = append(b, st)
+				}
+			}
+			same := len(a) == len(b)
+			for k := range a {
+				if same && (a[k].Kind != b[k].Kind || a[k].Node != b[k].Node) {
+					same = false
+				}
+			}
+			if same {
+				dup = true
+			}
+		}
+		if !dup {
 			mains = append(mains, p)
 		}
 	}
@@ -205,7 +237,31 @@ func c15Func(c *Ctx, fd *ast.FuncDecl) {
 		for i := range sp.Vals {
 			okShort = okShort && i < len(p.Vals) && (sameTerm(sp.Vals[i], p.Vals[i]) || (v.isSelf(sp.Vals[i]) && v.isSelf(p.Vals[i])))
 		}
-		for _, st := range sp.Effects() {
+		// what the shortcut does before it decides is done by the main path too (its steps up to the emptiness test are a prefix of
+		// the main path's): only what follows the decision counts
+		lastCond := -1
+		for k, st := range sp.Steps {
+			if st.Kind == "cond" {
+				lastCond = k
+			}
+		}
+		var after []Step
+		prefixShared := true
+		for k, st := range sp.Steps {
+			if k > lastCond {
+				if st.Kind != "cond" {
+					after = append(after, st)
+				}
+				continue
+			}
+			if k >= len(p.Steps) || p.Steps[k].Kind != st.Kind || p.Steps[k].Node != st.Node {
+				prefixShared = false
+			}
+		}
+		if !prefixShared {
+			after = sp.Effects()
+		}
+		for _, st := range after {
 			isCtor := st.Kind == "call" && st.Call != nil && st.Call.Fun != nil && st.Call.Fun.Pkg() == c.Types && (st.Call.Fun.Name() == "NewListOf" || st.Call.Fun.Name() == "NewObject" || st.Call.Fun.Name() == "NewList" || st.Call.Fun.Name() == "Init")
 			if !isCtor && st.Kind != "store" {
 				okShort = false
